@@ -81,8 +81,37 @@ impl<P: Problem> Component<P> for Block<P> {
     }
 
     fn execute(&self, problem: &P, state: &mut State<P>) -> ExecResult<()> {
+        #[cfg(mahf_verif)]
+        let mut verif_index = 0;
         for component in &self.0 {
+            #[cfg(mahf_verif)]
+            crate::verif::emit(
+                problem,
+                state,
+                crate::verif::StepEvent {
+                    step: crate::verif::Step::Before,
+                    index: verif_index,
+                    len: self.0.len(),
+                    block: self as *const Self as usize,
+                    component: component.as_ref(),
+                },
+            );
             component.execute(problem, state)?;
+            #[cfg(mahf_verif)]
+            {
+                crate::verif::emit(
+                    problem,
+                    state,
+                    crate::verif::StepEvent {
+                        step: crate::verif::Step::After,
+                        index: verif_index,
+                        len: self.0.len(),
+                        block: self as *const Self as usize,
+                        component: component.as_ref(),
+                    },
+                );
+                verif_index += 1;
+            }
         }
         Ok(())
     }
